@@ -3,7 +3,7 @@ follows its stated stopping rule."""
 import numpy as np
 from hypothesis import strategies as st
 
-from vp import gens
+from vp import gens, scene
 from vp.engine import SubCheck
 from vp.ref import oversample as R
 
@@ -65,7 +65,15 @@ RULE = (
     "slim_for_sub_slim, binned values and decorated values equal to the reference for that table (the adaptive "
     "choice of sizes itself is not checked); OverSamplingIterate(sub_steps=None) follows the rule on the documented "
     "default schedule [2,4,8,16]; the identically-zero function returns exact zeros (every level is 0). "
-    "Non-trivial there = sub-size > 1 on a mask that is not a solid rectangle (tables), from_adapt table mixed (adapt)."
+    "Non-trivial there = sub-size > 1 on a mask that is not a solid rectangle (tables), from_adapt table mixed (adapt). "
+    "Grid2DOverSampled with displaced points (decorated): the bundled points are the reference sub-grid sent through a "
+    "generated identity / affine (rotation, shear, scale, shift) / smooth warp with jitter, int and per-pixel "
+    "sub-sizes, both stacks; oracle = reference per-pixel mean of f at the bundled points (atol 1e-9*scale; functions "
+    "without the zero box). Schedule order: schedules are handed over exactly as generated - ascending, descending, "
+    "permuted or with repeated entries, as list or tuple - through OverSamplerIterate, "
+    "OverSamplingIterate.over_sampler_from and the decorator (both stacks), in iterate, iterate_exact (table per "
+    "distinct sub-size, schedule any sequence over them), reuse and shared; the reference rule is applied to the "
+    "schedule as given, and the routes must return bit-identical arrays (tied pixels included)."
 )
 ASSUMPTIONS = [
     "pixel (i,j) of an (H,W) frame is centred at (oy+((H-1)/2-i)*sy, ox+(j-(W-1)/2)*sx) (C02's closed form); "
@@ -237,6 +245,9 @@ def decorated_cases(draw):
                    c["origin"][1] + draw(gens.reals(-w / 2.0, w / 2.0)) * c["pixel_scales"][1]]
     c["extra"] = draw(extras)
     c["fn"] = draw(functions(c))
+    # points bundled in a Grid2DOverSampled: the sub-grid sent through identity / affine (rotation, shear, scale,
+    # shift) / smooth warp with jitter, as a ray-traced grid would be
+    c["warp"] = draw(scene.warps())
     return c
 
 
@@ -246,7 +257,21 @@ def schedules(draw):
         return [2, 4, 8, 16]
     k = draw(st.integers(1, 4))
     vals = draw(st.lists(st.integers(1, 12), min_size=k, max_size=k, unique=True))
-    return sorted(vals)
+    return _ordered(draw, vals)
+
+
+def _ordered(draw, vals):
+    """The schedule is used in the order the caller gives it: ascending (the common use), descending, any
+    permutation, or with repeated entries."""
+    order = draw(st.sampled_from(["ascending", "ascending", "descending", "permuted", "repeats"]))
+    if order == "ascending":
+        return sorted(vals)
+    if order == "descending":
+        return sorted(vals, reverse=True)
+    if order == "permuted":
+        return list(draw(st.permutations(vals)))
+    k = draw(st.integers(max(2, len(vals)), 4))
+    return [vals[draw(st.integers(0, len(vals) - 1))] for _ in range(k)]
 
 
 @st.composite
@@ -256,6 +281,7 @@ def iterate_cases(draw):
     c["frac"] = draw(st.one_of(st.sampled_from([0.5, 0.9, 0.99, 0.999, 0.9999, 1.0, 1e-6, 0.8, 0.95, 0.05]),
                                st.floats(0.05, 1.0)))
     c["rel"] = draw(st.one_of(st.none(), st.sampled_from([1e-6, 1e-4, 1e-3, 1e-2, 0.1, 1.0]), st.floats(1e-6, 0.5)))
+    c["as_tuple"] = draw(st.booleans())  # the schedule handed over as a tuple instead of a list
     c["extra"] = draw(extras)
     c["fn"] = draw(functions(c, family=draw(st.sampled_from(["profile", "profile", "profile", "mixed", "mixed", "affine"]))))
     return c
@@ -269,9 +295,11 @@ def exact_cases(draw):
     c = draw(frames(hi=5))
     n = _n_unmasked(c["mask"])
     k = draw(st.integers(1, 4))
-    steps = sorted(draw(st.lists(st.sampled_from([2, 4, 8, 16]), min_size=k, max_size=k, unique=True)))
-    c["steps"] = steps
-    rows = [draw(st.lists(st.sampled_from(EXACT_VALUES), min_size=len(steps) + 1, max_size=len(steps) + 1))
+    subs = sorted(draw(st.lists(st.sampled_from([2, 4, 8, 16]), min_size=k, max_size=k, unique=True)))
+    c["subs"] = subs                      # distinct sub-sizes: the table has one value per pixel for 1 and each of them
+    c["steps"] = _ordered(draw, subs)     # the schedule: those sub-sizes in any order, possibly repeated
+    c["as_tuple"] = draw(st.booleans())
+    rows = [draw(st.lists(st.sampled_from(EXACT_VALUES), min_size=len(subs) + 1, max_size=len(subs) + 1))
             for _ in range(n)]
     if not any(r[0] != 0.0 for r in rows):
         rows[0][0] = 1.0  # not all-zero on the pixel centres
@@ -628,6 +656,35 @@ def _scaling_relation(ctx, case, kind, stack, m, ps, origin, mask, got):
                   "%s/%s: result for 2**%d*f vs 2**%d * result for f" % (kind, stack, fn["scale_pow2"], fn["scale_pow2"]))
 
 
+def _decorated_bundle(ctx, case, stack, m, ps, origin, mask):
+    """Grid2DOverSampled whose bundled points are NOT the over-sampler's own grid: the decorator must return, per
+    pixel, the mean of the function at that pixel's own bundled sub-values."""
+    aa = _aa()
+    P = _profiles()
+    warp = case.get("warp")
+    if warp is None:
+        return
+    sub = case["sub"]
+    n = int((~m).sum())
+    pts, owner = R.sub_grid(m, ps, origin, sub)
+    bundled = scene.apply_warp(pts, warp, origin)          # the case's input points (exact, no rounding to match)
+    moved = bool(len(pts)) and float(np.abs(bundled - pts).max()) > 1e-6 * min(ps)
+    ctx.label("bundle:moved" if moved else "bundle:own-grid")
+    fn = dict(case["fn"], zero_box=None)                   # pixel boxes have no meaning for displaced points
+    extra = case["extra"]
+    gain = 1.0 if extra is None else float(extra)
+    prof = P["cls"](lambda p: R.feval(fn, p))
+    osr = aa.OverSamplerUniform(mask=mask, sub_size=_sub_arg(mask, sub))
+    grid = aa.Grid2DOverSampled(grid=aa.Grid2DIrregular(values=bundled.copy()), over_sampler=osr, pixels_in_mask=n)
+    out = _call(prof.stacked if stack == "to_array" else prof.bare, grid, extra)
+    fvals = gain * R.feval(fn, bundled)
+    delta = VALUE_REL * max(R.unit_of(fn), float(np.abs(fvals).max()) if len(fvals) else 0.0)
+    got = _values_of(ctx, out, n, "decorated/bundle")
+    if got is not None:
+        ctx.close(got, R.bin_mean(fvals, owner, n), "decorated/bundle/%s" % ("moved-points" if moved else "own-grid"),
+                  atol=delta, what="Grid2DOverSampled/%s: result vs per-pixel mean of f at the bundled points" % stack)
+
+
 def body_decorated(case, ctx):
     m, ps, origin, mask = _frame(case)
     sub = case["sub"]
@@ -643,6 +700,7 @@ def body_decorated(case, ctx):
         if stack == "to_array":
             _scaling_relation(ctx, case, "array", stack, m, ps, origin, mask, got)
         _decorated_one(ctx, case, "oversampled", stack, m, ps, origin, mask)
+        _decorated_bundle(ctx, case, stack, m, ps, origin, mask)
         _decorated_one(ctx, case, "adaptive", stack, m, ps, origin, mask)
     got = _decorated_one(ctx, case, "sampler-obj", "-", m, ps, origin, mask)
     _scaling_relation(ctx, case, "sampler-obj", "-", m, ps, origin, mask, got)
@@ -652,7 +710,7 @@ def body_decorated(case, ctx):
 # ---------------------------------------------------------------------------------------------
 # sub-checks 4/5: the iterative scheme
 # ---------------------------------------------------------------------------------------------
-ITER_ENTRIES = ("sampler", "decorator-to_array", "decorator-bare")
+ITER_ENTRIES = ("sampler", "over_sampler_from", "decorator-to_array", "decorator-bare")
 
 
 def _run_iterate(case, entry, mask, prof, extra, rel="case"):
@@ -660,15 +718,19 @@ def _run_iterate(case, entry, mask, prof, extra, rel="case"):
     magnitude unit); by default the case's own value."""
     aa = _aa()
     P = _profiles()
-    steps = [int(v) for v in case["steps"]]
+    steps = [int(v) for v in case["steps"]]  # in the order given
+    if case.get("as_tuple"):
+        steps = tuple(steps)
     rel = case["rel"] if rel == "case" else rel
+    kw = {} if extra is None else {"gain": extra}
     if entry == "sampler":
         osr = aa.OverSamplerIterate(mask=mask, fractional_accuracy=case["frac"], relative_accuracy=rel,
                                     sub_steps=steps)
-        kw = {} if extra is None else {"gain": extra}
         return osr.array_via_func_from(P["raw"], prof, **kw)
-    grid = aa.Grid2D.from_mask(mask=mask, over_sampling=aa.OverSamplingIterate(
-        fractional_accuracy=case["frac"], relative_accuracy=rel, sub_steps=steps))
+    config = aa.OverSamplingIterate(fractional_accuracy=case["frac"], relative_accuracy=rel, sub_steps=steps)
+    if entry == "over_sampler_from":
+        return config.over_sampler_from(mask=mask).array_via_func_from(P["raw"], prof, **kw)
+    grid = aa.Grid2D.from_mask(mask=mask, over_sampling=config)
     method = prof.stacked if entry == "decorator-to_array" else prof.bare
     return _call(method, grid, extra)
 
@@ -678,6 +740,14 @@ def _iterate_labels(ctx, case, ref, steps):
     stops = set(ref["stop"][ok].tolist())
     nl = len(steps)
     ctx.label("steps:len-%d" % nl, "rel:none" if case["rel"] is None else "rel:set")
+    if len(set(steps)) < nl:
+        ctx.label("order:repeats")
+    elif nl > 1 and steps == sorted(steps):
+        ctx.label("order:ascending")
+    elif nl > 1 and steps == sorted(steps, reverse=True):
+        ctx.label("order:descending")
+    elif nl > 1:
+        ctx.label("order:non-monotone")
     if steps == [2, 4, 8, 16]:
         ctx.label("steps:default")
     if len(stops) >= 2:
@@ -738,12 +808,18 @@ def body_iterate(case, ctx):
     ctx.tie(int(ref["tied"].sum()))
     ok = ~ref["tied"]
 
+    first = None
     for entry in ITER_ENTRIES:
         prof = P["cls"](lambda pts: R.feval(fn, pts))
         out = _run_iterate(case, entry, mask, prof, extra, rel=rel)
         got = _values_of(ctx, out, n, "iterate")
         if got is None:
             continue
+        # every route performs the same arithmetic: bit-identical results, tied pixels included
+        if first is None:
+            first = (entry, got)
+        else:
+            ctx.equal(got, first[1], "iterate/routes-disagree", "%s vs %s on schedule %s" % (entry, first[0], steps))
         bad = ok & ~(np.abs(got - ref["out"]) <= delta)
         ctx.comparisons += int(ok.sum())
         if bad.any():
@@ -765,10 +841,11 @@ def body_exact(case, ctx):
     _frame_labels(ctx, m, ps, origin)
     _mag_label(ctx, rows[:, 0])
     ij = np.argwhere(~m)
-    tab = {"frame": {"shape": list(m.shape), "ps": list(ps), "origin": list(origin)}, "subs": [1] + steps,
+    subs = [int(v) for v in case.get("subs", steps)]
+    tab = {"frame": {"shape": list(m.shape), "ps": list(ps), "origin": list(origin)}, "subs": [1] + subs,
            "values": {"%d,%d" % (ij[k, 0], ij[k, 1]): [float(v) for v in rows[k]] for k in range(n)}}
     plain = rows[:, 0]
-    levels = [rows[:, k + 1] for k in range(len(steps))]
+    levels = [rows[:, 1 + subs.index(sub)] for sub in steps]  # the schedule as given (any order, repeats)
     frac = float(case["frac"])
     rel = None if case["rel"] is None else float(case["rel"]) * unit  # exact
     ref = R.iterate_ref(plain, levels, frac, rel, 0.0)
@@ -790,12 +867,17 @@ def body_exact(case, ctx):
     if tie_abs.any():
         ctx.label("boundary:diff==tolerance")
 
+    first = None
     for entry in ITER_ENTRIES:
         prof = P["cls"](lambda pts: R.table_eval(tab, pts))
         out = _run_iterate(case, entry, mask, prof, None, rel=rel)
         got = _values_of(ctx, out, n, "iterate_exact")
         if got is None:
             continue
+        if first is None:
+            first = (entry, got)
+        else:
+            ctx.equal(got, first[1], "iterate_exact/routes-disagree", "%s vs %s on schedule %s" % (entry, first[0], steps))
         bad = got != ref["out"]
         ctx.comparisons += n
         if bad.any():
